@@ -318,8 +318,8 @@ func guard(f func() Result) (r Result) {
 }
 
 func trimStack(s []byte) string {
-	if len(s) > 2500 {
-		s = s[:2500]
+	if len(s) > 1400 {
+		s = s[:1400]
 	}
 	return string(s)
 }
@@ -332,3 +332,5 @@ func envInt(name string, def int) int {
 	}
 	return def
 }
+
+func sprintf(format string, a ...interface{}) string { return fmt.Sprintf(format, a...) }
